@@ -31,7 +31,7 @@ def tasks(tier):
               ("CISD_THC", 3, 1, 1, True, {"spin_dep": False}), ("ucisd", 3, 2, 1, False, {}), ("UCISD", 3, 2, 1, False, {}), ("GCISD", 2, 1, 1, False, {})]
     if tier == "thorough":
         direct += [("cisd", 4, 2, 2, True, {"spin_dep": False}), ("CISD", 4, 2, 2, True, {"spin_dep": False}), ("ucisd", 3, 1, 1, False, {}),
-                   ("UCISD", 3, 1, 1, False, {}), ("ucisd", 4, 2, 1, False, {})]
+                   ("UCISD", 3, 1, 1, False, {})]
     for k, n, a, b, r, extra in direct:
         t.append((W, "obs_fock", dict(kind=k, norb=n, nu=a, nd=b, what="fb", restricted=r, nchol=2 if k in ("ghf", "cisd") else 1, **extra)))
     t.append((W, "obs_ru", dict(kind="rhf", norb=3, nocc=1, what="fb")))
